@@ -47,7 +47,14 @@ func structurallyValid(hs []hstore.H) bool {
 // HarnessFaultyAdd: one ingestion step from an arbitrary INV-H store with a kill after, or a
 // failure of, the j-th write transaction (j = 1..3, every boundary of a reorganising Add);
 // then restart and redelivery of the same header; compared with the uninterrupted run.
-func HarnessFaultyAdd(k int) {
+func HarnessFaultyAdd(k int) { faultyAdd(k, false) }
+
+// HarnessFaultyReorg: the same with the submission restricted to headers whose parent is a
+// stored STALE header (the submissions that can reorganise the chain) - a cheaper slice of
+// HarnessFaultyAdd that reaches one row further in the quick tier.
+func HarnessFaultyReorg(k int) { faultyAdd(k, true) }
+
+func faultyAdd(k int, staleParentOnly bool) {
 	pre := make([]hstore.H, k)
 	for i := range pre {
 		pre[i] = hstore.NondetH()
@@ -63,6 +70,14 @@ func HarnessFaultyAdd(k int) {
 	}
 	vh.Assume(hstore.Acyclic(hashes, prevs))
 	vh.Assume(!vh.HashEq(newHash, pre[0].Prev))
+	if staleParentOnly {
+		staleParent := false
+		for i := range pre {
+			staleParent = vh.Or(staleParent, vh.And(vh.HashEq(pre[i].Hash, bs.PrevBlock), pre[i].State == hstore.S))
+			vh.Assume(!vh.HashEq(pre[i].Hash, newHash))
+		}
+		vh.Assume(staleParent)
+	}
 
 	// reference: the uninterrupted run
 	ref := hstore.Store(pre)
